@@ -17,6 +17,10 @@ from . import boot
 _seq = itertools.count()
 
 NAMES = ["a", "ab", "a_b", "aa", "b", "ba", "pkg", "sub", "util", "core", "handlers", "myhandlers", "h", "x", "y", "z", "m0", "m1"]
+# legal but unusual identifiers (all NFKC-stable, so an import statement spells them exactly like the directory entry):
+# non-ASCII first letters, combining marks / U+00B7 (identifier characters that are no regex word characters), names that
+# differ only in case or in zero padding, names starting with "py" or containing "init", soft keywords
+NAMES += ["größe", "überblick", "данные", "ข้อมูล", "a·b", "Models", "models", "m01", "py", "pyx", "python_compat", "x_py", "init_x", "match", "type"]
 EXTERNALS = [
     "os", "os.path", "sys", "json", "xml.etree.ElementTree", "logging.handlers", "urllib.parse", "collections.abc",
     "extlib", "extlib.core", "extlib.core.deep", "vendor.pkg.handlers", "numpyish.linalg",
